@@ -8,6 +8,7 @@ from core import (strip_site, root_calls, dashmap_call, lock_call, fmt, subexprs
 from weight import WeightModel, accounting_flow
 from core import subst_params, inline_ctor
 
+WITNESSES = ['W5InternalsUnreachable']
 LEVEL = "other"
 EXPLANATION = ("Necessary-and-sufficient structural conditions for the invariant used <= max, checked on MIR: "
                "R01.1 all writes of the total are +=x / -=x / =0; R01.2 each += is dominated by a check "
